@@ -205,7 +205,7 @@ def route_guards(chk, routes, fns):
             chk.require("C07.R4", site, ok, f"{name}: result cast to the scale dtype last (`...{t[-40:]}`)", name, "result dtype", "float16/bfloat16 activations: the output comes back in float32 / int32")
 
 
-def accumulation(chk, fns):
+def accumulation(chk, fns, rule="C07.R3"):
     """C07.R3: the default route accumulates in float32 whenever a raw-code operand is multiplied in a half-precision context."""
     if "qbytes_mm" not in fns:
         return
@@ -232,7 +232,7 @@ def accumulation(chk, fns):
             for c, truth, _ in p.conds:
                 v = eval_dtype_cond(c, env)
                 if v is None:
-                    chk.unknown("C07.R3", site, f"qbytes_mm: condition `{U(c)[:70]}` is not a dtype test the checker can evaluate")
+                    chk.unknown(rule, site, f"qbytes_mm: condition `{U(c)[:70]}` is not a dtype test the checker can evaluate")
                     return
                 if v != truth:
                     feasible = False
@@ -253,7 +253,7 @@ def accumulation(chk, fns):
                 actk = "plain" if da == sd else "quantized"
                 bad.setdefault((kind, actk), []).append((sd, da, dw, casts))
         if not matched:
-            chk.unknown("C07.R3", site, f"qbytes_mm: no path for dtypes {env}")
+            chk.unknown(rule, site, f"qbytes_mm: no path for dtypes {env}")
             return
     for (kind, actk), lst in sorted(bad.items()):
         sd, da, dw, casts = lst[0]
@@ -263,8 +263,49 @@ def accumulation(chk, fns):
         else:
             tag = f"no float32 promotion for int8 operand ({actk} activations)"
             wit = "float16 activations x int8 weights with in_features=512 and activations of magnitude 8-16: sum of x*code exceeds 65504 before the scale is applied"
-        chk.bad("C07.R3", site, "qbytes_mm", tag, f"qbytes_mm multiplies raw codes in half precision for {len(lst)} dtype combination(s), e.g. scales {sd}, activations {da}, weights {dw}: operands cast to {casts}", wit)
-    chk.ok("C07.R3", site, f"qbytes_mm accumulates in float32 for {n_ok} of {len(combos)} (scale dtype, activation dtype, weight dtype) combinations with half-precision scales")
+        chk.bad(rule, site, "qbytes_mm", tag, f"qbytes_mm multiplies raw codes in half precision for {len(lst)} dtype combination(s), e.g. scales {sd}, activations {da}, weights {dw}: operands cast to {casts}", wit)
+    chk.ok(rule, site, f"qbytes_mm accumulates in float32 for {n_ok} of {len(combos)} (scale dtype, activation dtype, weight dtype) combinations with half-precision scales")
+
+
+ITEMSIZE = {"torch.int8": 1, "torch.uint8": 1, "torch.float8_e4m3fn": 1, "torch.float8_e5m2": 1, "torch.float8_e4m3fnuz": 1, "torch.float8_e5m2fnuz": 1,
+            "torch.float16": 2, "torch.bfloat16": 2, "torch.int16": 2, "torch.float32": 4, "torch.int32": 4, "torch.float64": 8, "torch.int64": 8}
+
+
+def dtype_value(e, env):
+    """Value of an expression over operand dtypes: a dtype name, an int, a bool, or None (not evaluable)."""
+    t = U(e)
+    if t in env:
+        return env[t]
+    if isinstance(e, ast.Constant) and isinstance(e.value, (int, bool)):
+        return e.value
+    if isinstance(e, ast.Attribute):
+        if t.startswith("torch.") and t.count(".") == 1 and t in ITEMSIZE:
+            return t
+        base = dtype_value(e.value, env)
+        if isinstance(base, str):
+            if e.attr == "itemsize":
+                return ITEMSIZE.get(base)
+            if e.attr == "is_floating_point":
+                return "float" in base
+            if e.attr == "is_signed":
+                return base != "torch.uint8"
+        return None
+    if isinstance(e, ast.Call) and isinstance(e.func, ast.Attribute) and not e.args and not e.keywords:
+        # tensor.element_size() / tensor.is_floating_point(): through the tensor's dtype
+        d = env.get(U(e.func.value) + ".dtype")
+        if d is not None:
+            if e.func.attr == "element_size":
+                return ITEMSIZE.get(d)
+            if e.func.attr == "is_floating_point":
+                return "float" in d
+        return None
+    if isinstance(e, ast.Attribute) or isinstance(e, ast.Name):
+        return None
+    if isinstance(e, ast.Call) and U(e.func) in ("torch.finfo", "torch.iinfo"):
+        return None
+    if isinstance(e, ast.Attribute) and e.attr == "bits":
+        return None
+    return None
 
 
 def eval_dtype_cond(c, env):
@@ -277,27 +318,33 @@ def eval_dtype_cond(c, env):
         v = eval_dtype_cond(c.operand, env)
         return None if v is None else not v
     if isinstance(c, ast.Compare) and len(c.ops) == 1:
-        l, r = U(c.left), U(c.comparators[0])
-        def val(t):
-            if t in env:
-                return env[t]
-            if t.startswith("torch.") and t.count(".") == 1:
-                return t
+        op, rhs = c.ops[0], c.comparators[0]
+        l = dtype_value(c.left, env)
+        if isinstance(op, (ast.In, ast.NotIn)) and isinstance(rhs, (ast.Tuple, ast.List, ast.Set)):
+            vals = [dtype_value(x, env) for x in rhs.elts]
+            if l is None or any(v is None for v in vals):
+                return None
+            return (l in vals) if isinstance(op, ast.In) else (l not in vals)
+        r = dtype_value(rhs, env)
+        if l is None or r is None:
             return None
-        if val(l) is not None and val(r) is not None and isinstance(c.ops[0], (ast.Eq, ast.Is, ast.NotEq, ast.IsNot)):
-            eq = val(l) == val(r)
-        elif l in env and isinstance(c.comparators[0], (ast.Tuple, ast.List)) and isinstance(c.ops[0], (ast.In, ast.NotIn)):
-            eq = env[l] in [U(x) for x in c.comparators[0].elts]
-            return eq if isinstance(c.ops[0], ast.In) else not eq
-        else:
+        if isinstance(op, (ast.Eq, ast.Is)):
+            return l == r
+        if isinstance(op, (ast.NotEq, ast.IsNot)):
+            return l != r
+        if isinstance(l, str) or isinstance(r, str):
             return None
-        if isinstance(c.ops[0], (ast.Eq, ast.Is)):
-            return eq
-        if isinstance(c.ops[0], (ast.NotEq, ast.IsNot)):
-            return not eq
-    if isinstance(c, ast.Attribute) and c.attr == "is_floating_point" and U(c.value) in env:
-        return "float" in env[U(c.value)]
-    return None
+        if isinstance(op, ast.Lt):
+            return l < r
+        if isinstance(op, ast.LtE):
+            return l <= r
+        if isinstance(op, ast.Gt):
+            return l > r
+        if isinstance(op, ast.GtE):
+            return l >= r
+        return None
+    v = dtype_value(c, env)
+    return v if isinstance(v, bool) else None
 
 
 # ---------------------------------------------------------------------------------------------
